@@ -216,7 +216,9 @@ class HRep:
                     if self.dim >= 2:
                         M[:2, :2] = [[math.cos(0.7), -math.sin(0.7)], [math.sin(0.7), math.cos(0.7)]]
                     M = M * 1.000003
-                elif k_ == 0 and repcase.get("variant") == "integer-typed" and self.dim >= 2:
+                elif k_ == 0 and repcase.get("variant") in ("integer-typed",
+                                                            "integer-typed-first") \
+                        and self.dim >= 2:
                     # an integer-typed generator whose inverse is not integral
                     M = np.eye(self.dim)
                     M[0, 0], M[0, 1] = 2.0, 1.0
@@ -460,7 +462,7 @@ def rep_case(draw, lk, max_k=4):
         r = dict(kind="float", k=k, dim=dim,
                  mats=[draw(gen.wellcond_matrix(dim, maxfactor=2.0)) for _ in range(k)],
                  variant=draw(st.sampled_from([None, None, "nearly-orthogonal",
-                                               "integer-typed"])))
+                                               "integer-typed", "integer-typed-first"])))
     if names:
         r["names"] = names
     r["wrap"] = draw(st.sampled_from([None, None, "projective", "hyperbolic"]))
